@@ -1835,12 +1835,30 @@ static int64_t eval(Node *node) {
 // is a pointer to a global variable and n is a postiive/negative
 // number. The latter form is accepted only as an initialization
 // expression for a global variable.
+static int64_t eval3(Node *node, char ***label);
+
 static int64_t eval2(Node *node, char ***label) {
   add_type(node);
 
   if (is_flonum(node->ty))
     return eval_double(node);
 
+  // The result must be a value of node->ty: wrap it to the width and
+  // signedness of that type, as the generated code would.
+  int64_t val = eval3(node, label);
+  if (is_integer(node->ty)) {
+    if (node->ty->kind == TY_BOOL)
+      return val != 0;
+    switch (node->ty->size) {
+    case 1: return node->ty->is_unsigned ? (int64_t)(uint8_t)val : (int64_t)(int8_t)val;
+    case 2: return node->ty->is_unsigned ? (int64_t)(uint16_t)val : (int64_t)(int16_t)val;
+    case 4: return node->ty->is_unsigned ? (int64_t)(uint32_t)val : (int64_t)(int32_t)val;
+    }
+  }
+  return val;
+}
+
+static int64_t eval3(Node *node, char ***label) {
   switch (node->kind) {
   case ND_ADD:
     return eval2(node->lhs, label) + eval(node->rhs);
